@@ -186,10 +186,15 @@ CHECKS = {
              "swallowed adapter errors, opset setting, fallback to the C API with initializer recovery, proto copy-back) over models built from the real "
              "ONNX schema history (dumped to JSON); TLC checks Prop (declared = target or unchanged; consistent; valid; equivalent; signature and "
              "initializers kept) on the design and Explained on the implementation model; every TLC configuration is built as a real model, converted by "
-             "the real code and judged by checker, opset fields and ORT before/after.",
+             "the real code and judged by checker, opset fields and ORT before/after. Direction B: VersionApply.tla/VersionTrace.tla - every recorded "
+             "run of _VersionConverter.visit_model (env-guarded hooks in _version_converter.py: every generated configuration, the repository's tests, "
+             "hand-written models with adapters inside If/Loop bodies) is executed by TLC step by step: one version up from the node's current version, "
+             "replaced only where an adapter is registered, replacement wired/visible/at the next version, bodies converted with their node, every "
+             "default-domain node of every graph at the target and every scope declaring it at the end, final model = computed state.",
         note="source/target in 18..25, DFT/GridSample/GroupNormalization/unchanged ops at top level, in If bodies and in functions; equivalence judged on "
              "two seeded inputs; sources the checker rejects are not judged for validity",
-        technique="TLA+ pipeline model over real schema history, TLC exhaustive, every configuration replayed into convert_version + checker + ORT",
+        technique="TLA+ pipeline model over real schema history, TLC exhaustive, every configuration replayed into convert_version + checker + ORT; "
+                  "TLC trace validation of recorded version-converter executions against an operational TLA+ model (VersionApply.tla)",
         design_ref="DESIGN.md section 4 C10",
     ),
     "C14": dict(
@@ -303,9 +308,9 @@ m = {
     "hooks": {
         "guard": "ONNXSCRIPT_VERIF",
         "enable": "checks run /repo's working tree through /venv (editable install); harness-side recorders wrap methods at run time; "
-                  "source hooks (onnxscript/_internal/_verif.py; call sites in converter.py, rewriter/_rewrite_rule.py and "
-                  "optimizer/_constant_folding.py) are active only when ONNXSCRIPT_VERIF=1 is set before onnxscript is imported; ./check sets it for "
-                  "C01, C02, C03, C04 and C07",
+                  "source hooks (onnxscript/_internal/_verif.py; call sites in converter.py, rewriter/_rewrite_rule.py, "
+                  "optimizer/_constant_folding.py and version_converter/_version_converter.py) are active only when ONNXSCRIPT_VERIF=1 is set before "
+                  "onnxscript is imported; ./check sets it for C01, C02, C03, C04, C07 and C10",
         "baseline_off_cmd": BASE,
         "source_commits": hooks_commits,
         "add_only": True,
